@@ -580,6 +580,22 @@ def run(scenario, world):
                     'sequential evaluation raised %r, parallel did not'
                     % (seq,), step)
             else:
+                magic = set(float(v) for v in op.get('magic', []))
+                individual = kind == 'logpost' or (
+                    kind == 'ctrl_post' and not main.recipes[h].get('pop'))
+                hit = [i for i, xx in enumerate(xs)
+                       if magic and individual and float(xx[0]) in magic]
+                for b, out in enumerate(outs):
+                    for i in hit:
+                        v = out[i][0] if s1 else out[i]
+                        if np.isfinite(v):
+                            raise Violation(
+                                'fault.documented_value', 'worker',
+                                'solver failure inside a worker: position %d '
+                                'returned %s' % (i, short(out[i])), step)
+                if hit:
+                    world.probe('minus_inf_from_worker_after_solver_failure',
+                                len(hit))
                 for b, out in enumerate(outs):
                     for i, (a, c) in enumerate(zip(out, seq)):
                         if not close(a, c, **tolerance('s1' if s1 else 'x')):
@@ -914,6 +930,13 @@ def generate(rng, index, tier):
                   'sched': rng.randint(0, 2 ** 31)}
             if rng.random() < 0.3:
                 op['starve'] = rng.randint(1, op['n_workers'])
+            rec_h = [r for r in recipes if r['h'] == h][0]
+            if faults_on and kinds[h] in ('logpost', 'ctrl_post') \
+                    and not rec_h.get('pop') and rng.random() < 0.5:
+                # the solver fails for every evaluation of one of the points,
+                # in whichever process it lands
+                j = rng.choice(op['points'])
+                op['magic'] = [points[h][j % len(points[h])][0]]
             ops.append(op)
         elif r < 0.17:
             ops.append({'op': 'perturb', 'how': rng.choice(
